@@ -4,12 +4,21 @@
 cd /verif/coq || exit 1
 mkdir -p /verif/static
 out=/verif/static/coqchk.txt
-echo "coqchk -o over coq/Properties/*.vo, $(coqc --version | head -1), $(date -u +%Y-%m-%dT%H:%MZ), coq tree $(cd /verif && git log -1 --format=%h -- coq)" > $out
+EXTRA="RunEat RunBvN RunVote RunIrv GenNp GenLib GenUtil EatSnap BvNSnap RootnProof"      # correspondence checkers and the libraries used by the generated models (not reachable from Properties/)
+echo "coqchk -o over coq/Properties/*.vo and $EXTRA, $(coqc --version | head -1), $(date -u +%Y-%m-%dT%H:%MZ), coq tree $(cd /verif && git log -1 --format=%h -- coq)" > $out
 ls Properties/*.v | sed 's|Properties/\(.*\)\.v|\1|' | xargs -P 6 -I{} sh -c 'timeout 3000 coqchk -silent -o -R . SCK SCK.Properties.{} > /tmp/coqchk_{}.log 2>&1; echo "{} rc=$?"' 
+for m in $EXTRA; do [ -f $m.vo ] && (timeout 3000 coqchk -silent -o -R . SCK SCK.$m > /tmp/coqchk_x_$m.log 2>&1; echo "$m rc=$?"); done
 for f in $(ls Properties/*.v | sed 's|Properties/\(.*\)\.v|\1|'); do
   echo "== SCK.Properties.$f" >> $out
   grep -A1 -E "^\* (Theory|Axioms|Constants/Inductives relying|Inductives whose)" /tmp/coqchk_$f.log | grep -v "^--" >> $out
   grep -iE "error|anomaly|fatal" /tmp/coqchk_$f.log >> $out
   rm -f /tmp/coqchk_$f.log
+done
+for m in $EXTRA; do
+  [ -f /tmp/coqchk_x_$m.log ] || continue
+  echo "== SCK.$m" >> $out
+  grep -A1 -E "^\* (Theory|Axioms|Constants/Inductives relying|Inductives whose)" /tmp/coqchk_x_$m.log | grep -v "^--" >> $out
+  grep -iE "error|anomaly|fatal" /tmp/coqchk_x_$m.log >> $out
+  rm -f /tmp/coqchk_x_$m.log
 done
 tail -5 $out
